@@ -1,0 +1,57 @@
+//go:build verif
+
+package verifhook
+
+import (
+	"github.com/emmansun/gmsm/internal/bigmod"
+	"github.com/emmansun/gmsm/internal/sm2ec"
+	"github.com/emmansun/gmsm/internal/sm9/bn256"
+)
+
+// internal/sm9/bn256
+type (
+	G1           = bn256.G1
+	G2           = bn256.G2
+	GT           = bn256.GT
+	GTFieldTable = bn256.GTFieldTable
+)
+
+var (
+	Gen1                 = bn256.Gen1
+	Gen2                 = bn256.Gen2
+	Order                = bn256.Order
+	OrderBytes           = bn256.OrderBytes
+	OrderMinus1Bytes     = bn256.OrderMinus1Bytes
+	OrderMinus2Bytes     = bn256.OrderMinus2Bytes
+	Pair                 = bn256.Pair
+	Miller               = bn256.Miller
+	ScalarBaseMultGT     = bn256.ScalarBaseMultGT
+	ScalarMultGT         = bn256.ScalarMultGT
+	GenerateGTFieldTable = bn256.GenerateGTFieldTable
+	NormalizeScalar      = bn256.NormalizeScalar
+	RandomG1             = bn256.RandomG1
+	RandomG2             = bn256.RandomG2
+	RandomGT             = bn256.RandomGT
+)
+
+// internal/sm2ec
+type SM2P256Point = sm2ec.SM2P256Point
+
+var (
+	NewSM2P256Point = sm2ec.NewSM2P256Point
+	P256OrdInverse  = sm2ec.P256OrdInverse
+	P256OrdMul      = sm2ec.P256OrdMul
+	ImplicitSig     = sm2ec.ImplicitSig
+)
+
+// internal/bigmod
+type (
+	Nat     = bigmod.Nat
+	Modulus = bigmod.Modulus
+)
+
+var (
+	NewNat            = bigmod.NewNat
+	NewModulus        = bigmod.NewModulus
+	NewModulusProduct = bigmod.NewModulusProduct
+)
